@@ -9,7 +9,7 @@ import decoder
 from astq import calls, loc, show, showv, strip_all, val, walk
 from core import AnalysisBroken
 
-MARK_TABLES = ('registerUsage', 'reg_changed_offset')
+MARK_TABLES = ('registerUsage', 'reg_changed_offset', 'last_modified')
 RELEVANT = ('dst != src', 'isZeroOrPowerOf2(imm32)')
 
 
@@ -23,10 +23,10 @@ def instr_param(f):
 class Handler:
     """Facts of one emitter function h_X of a JIT back-end."""
 
-    def __init__(self, F, f, helper_marks=None):
+    def __init__(self, F, f, helper_marks=None, ip=None):
         self.F = F
         self.f = f
-        self.ip = instr_param(f)
+        self.ip = ip or instr_param(f)
         if self.ip is None:
             raise AnalysisBroken('%s: no Instruction parameter' % f['q'])
         self.locals = {}
@@ -209,3 +209,56 @@ def engine_table(F, qname):
         else:
             out.append(show(x))
     return out, g
+
+
+def case_handlers(F, g, enum_by_val):
+    """Handlers of a generator that translates instructions in a `switch` inside a loop (the RV64 vector back-end): one pseudo
+    function per case label = the declarations of the loop body that precede the switch followed by the statements of the case."""
+    from astq import walk as _walk
+    loops = [x for x in _walk(g['body']) if x['k'] == 'For' and any(y['k'] == 'Switch' for y in _walk(x['b']))]
+    if len(loops) != 1:
+        raise AnalysisBroken('%s: expected one instruction loop with a switch, found %d' % (g['q'], len(loops)))
+    body = loops[0]['b']
+    stmts = body['s'] if body['k'] == 'Compound' else [body]
+    pre = []
+    sw = None
+    for s_ in stmts:
+        if s_['k'] == 'Switch':
+            sw = s_
+            break
+        pre.append(s_)
+    if sw is None:
+        raise AnalysisBroken('%s: switch is not a direct child of the loop body' % g['q'])
+    ip = None
+    for s_ in pre:
+        if s_['k'] == 'Decl':
+            for d in s_['d']:
+                if 'randomx::Instruction' in (d.get('ty') or '') or d.get('ty') == 'Instruction':
+                    ip = d['id']
+    if ip is None:
+        raise AnalysisBroken('%s: local Instruction not found before the switch' % g['q'])
+    cases = {}
+    cur = []
+    for s_ in (sw['b']['s'] if sw['b']['k'] == 'Compound' else [sw['b']]):
+        x = s_
+        labs = []
+        while x['k'] in ('Case', 'Default'):
+            labs.append('default' if x['k'] == 'Default' else enum_by_val.get(val(x['lhs']), str(val(x['lhs']))))
+            x = x['sub']
+        if labs:
+            lst = []
+            for l in labs:
+                cases[l] = (lst, s_.get('ln'))
+            cur = [lst]
+        if x['k'] == 'Break':
+            cur = []
+            continue
+        for lst in cur:
+            lst.append(x)
+    hs = {}
+    for name, (lst, ln) in cases.items():
+        if name == 'default':
+            continue
+        f = dict(q='%s::case %s' % (g['q'], name), name='case ' + name, file=g['file'], line=ln or g['line'], params=[], body=dict(k='Compound', s=pre + lst, ln=ln), _unit=g.get('_unit'))
+        hs[name] = Handler(F, f, ip=ip)
+    return hs, loops[0], sw, ip
